@@ -5,6 +5,7 @@ the grouping of `convert_markers`, de-duplication and the printed text, relative
 the constraint parser on texts with several clauses (`SplitSound`).
 -/
 import PoetryVerif.Proofs.MarkerProj
+import PoetryVerif.Proofs.MarkerShape
 import PoetryVerif.Proofs.PyConvNorm
 
 set_option linter.unusedSimpArgs false
@@ -531,6 +532,57 @@ theorem leavesList_py (ms : List M) (hms : ∀ x ∈ ms, ∃ l, x = .leaf l ∧ 
     · exact hkx
     · exact ih (fun y hy => hms y (by simp [hy])) l hh
 
+theorem cube_py (c : M) (hc : c.isCube = true) (hp : ∀ l ∈ M.leaves c, convKey l.name = pyKey) :
+    (∃ l, c = .leaf l ∧ convKey l.name = pyKey) ∨
+    (∃ ms, c = .multi ms ∧ ∀ x ∈ ms, ∃ l, x = .leaf l ∧ convKey l.name = pyKey) := by
+  cases c with
+  | leaf l => exact Or.inl ⟨l, rfl, hp l (by simp [M.leaves])⟩
+  | multi ms =>
+    right
+    refine ⟨ms, rfl, ?_⟩
+    simp only [M.isCube, Bool.and_eq_true, List.all_eq_true] at hc
+    intro x hx
+    have hxl := hc.2 x hx
+    cases x with
+    | leaf l => exact ⟨l, rfl, hp l (by simpa [M.leaves] using leaf_mem_leavesList ms l hx)⟩
+    | any => simp [M.isLeaf] at hxl
+    | empty => simp [M.isLeaf] at hxl
+    | multi _ => simp [M.isLeaf] at hxl
+    | union _ => simp [M.isLeaf] at hxl
+  | any => simp [M.isCube] at hc
+  | empty => simp [M.isCube] at hc
+  | union _ => simp [M.isCube] at hc
+
+theorem mem_leavesList_of_mem (ms : List M) (c : M) (hc : c ∈ ms) : ∀ l ∈ M.leaves c, l ∈ M.leavesList ms := by
+  induction ms with
+  | nil => cases hc
+  | cons x xs ih =>
+    intro l hl
+    rcases List.mem_cons.1 hc with rfl | hx
+    · simp [M.leavesList, hl]
+    · simp [M.leavesList, ih hx l hl]
+
+/-- the shape `dnf` always returns (`dnf_isDnf`), when it is neither Empty nor Any and mentions python variables
+only, is the shape the exactness proof uses -/
+theorem dnfPy_of (d : M) (hd : d.isDnf = true) (he : d ≠ .empty) (ha : d ≠ .any)
+    (hp : ∀ l ∈ M.leaves d, convKey l.name = pyKey) : DnfPy d := by
+  cases d with
+  | any => exact absurd rfl ha
+  | empty => exact absurd rfl he
+  | leaf l =>
+    refine ⟨by simp [membersIfUnion], fun c hc => ?_⟩
+    simp [membersIfUnion] at hc; subst hc
+    exact cube_py _ (by simp [M.isCube]) hp
+  | multi ms =>
+    refine ⟨by simp [membersIfUnion], fun c hc => ?_⟩
+    simp [membersIfUnion] at hc; subst hc
+    exact cube_py _ (by simpa [M.isDnf] using hd) hp
+  | union cs =>
+    simp only [M.isDnf, Bool.and_eq_true, List.all_eq_true, Bool.not_eq_true', List.isEmpty_eq_false_iff] at hd
+    refine ⟨by simpa [membersIfUnion] using hd.1, fun c hc => ?_⟩
+    have hc' : c ∈ cs := by simpa [membersIfUnion] using hc
+    exact cube_py c (hd.2 c hc') (fun l hl => hp l (by simpa [M.leaves] using mem_leavesList_of_mem cs c hc' l hl))
+
 theorem sem_of_member_true (d c : M) (hc : c ∈ membersIfUnion d) (h : M.sem ev c = true) : M.sem ev d = true := by
   cases d with
   | union ms => simp only [M.sem]; exact semAny_of_mem ev ms c (by simpa [membersIfUnion] using hc) h
@@ -553,7 +605,8 @@ for a marker over python variables only whose DNF consists of python items (`Dnf
 theorem gpc_exact (S : LeafSpec ev G) (X Y Z : Nat) (m : M) (g : VC) (hg : M.Good G m)
     (hv : ∀ n ∈ M.vars m, pyNames.contains n = true)
     (hL : ∀ l, G l → convKey l.name = pyKey → LeafClause ev X Y Z l) (hSp : SplitSound X Y Z)
-    (hshape : ∀ d, dnf defaultFuel [] m = .ok d → DnfPy d)
+    (hne : ∀ d, dnf defaultFuel [] m = .ok d → d ≠ .empty)
+    (hpy : ∀ d, dnf defaultFuel [] m = .ok d → ∀ l ∈ M.leaves d, convKey l.name = pyKey)
     (h : gpc m = .ok g) : M.sem ev m = g.allowsPlain (pyV X Y Z) := by
   cases hs : M.sem ev m with
   | true => exact (gpc_upper S X Y Z m g hg hL hSp h hs).symm
@@ -580,7 +633,8 @@ theorem gpc_exact (S : LeafSpec ev G) (X Y Z : Nat) (m : M) (g : VC) (hg : M.Goo
             · rename_i d hd
               have hds := dnf_sound S hg hd
               have hdf : M.sem ev d = false := by rw [hds.2]; exact hs
-              obtain ⟨hne, hsh⟩ := hshape d hd
+              obtain ⟨hne, hsh⟩ := dnfPy_of d (dnf_isDnf hd) (hne d hd)
+                (by intro e; rw [e] at hdf; simp at hdf) (hpy d hd)
               split at hcm
               · cases hcm
               · rename_i groups hgroups
